@@ -2175,9 +2175,9 @@ class Filter(Blockwise):
         if isinstance(self.predicate, Or):
             result = rewrite_filters(self.predicate)
             if result._name != self.predicate._name:
-                return type(parent)(
-                    type(self)(self.frame, result), *parent.operands[1:]
-                )
+                # the filter can be any operand of the parent (the right side
+                # of a binary operation, a value of an assign, ...)
+                return parent.substitute(self, type(self)(self.frame, result))
 
         if isinstance(parent, (FilterAlign, Filter)) and not isinstance(
             self.frame, (FilterAlign, Filter)
